@@ -446,7 +446,9 @@ theorem applyCmd_no_callback {c : Config} {s : NodeState} {now : Nat} {e : Entry
   · cases h; exact noSuccess_nil
   · split at h
     · cases h
-    · cases h; exact noSuccess_single rfl
+    · split at h
+      · cases h; exact noSuccess_nil
+      · cases h; exact noSuccess_single rfl
   · cases h; exact noSuccess_nil
   · cases h; exact noSuccess_single rfl
 
